@@ -29,3 +29,56 @@ Theorem C03_disk_consistent_with_log :
     consistent content (entries_of file (s_log st)) (disk_after file content None (s_ops st)) = true.
 Proof. exact disk_consistent_with_log. Qed.
 Print Assumptions C03_disk_consistent_with_log.
+
+(* a raw line whose bytes changed has a logged action with its line number; lines are
+   inserted above / below only with a logged action at the first / last raw line *)
+Theorem C03_nothing_unlogged :
+  forall o keys file content groups evs st,
+    o_autofix o = true -> wf_groups content groups -> Forall no_sort_event evs ->
+    run o keys evs (init_state file groups) = Ok st ->
+    forall l, In l (s_store st) ->
+      (forall j, nth_error (cur_texts l) j <> nth_error (l_raw l) j ->
+         exists g, In g (s_log st) /\ g_file g = file /\ g_lineno g = l_lineno l + Z.of_nat j) /\
+      (cur_above l <> [] -> exists g, In g (s_log st) /\ g_file g = file /\ g_lineno g = l_lineno l) /\
+      (cur_below l <> [] -> exists g, In g (s_log st) /\ g_file g = file /\
+                                       g_lineno g = l_lineno l + Z.of_nat (length (l_raw l)) - 1).
+Proof. exact nothing_unlogged. Qed.
+Print Assumptions C03_nothing_unlogged.
+
+(* a logical line none of whose physical line numbers occurs in the log is written
+   back byte for byte (terminators and a missing final newline included) *)
+Theorem C03_untouched_preserved :
+  forall o keys file content groups evs st,
+    o_autofix o = true -> wf_groups content groups -> Forall no_sort_event evs ->
+    run o keys evs (init_state file groups) = Ok st ->
+    forall l, In l (s_store st) ->
+      (forall g, In g (s_log st) -> g_file g = file ->
+         ~ (l_lineno l <= g_lineno g < l_lineno l + Z.of_nat (length (l_raw l)))) ->
+      line_bytes l = l_raw l.
+Proof. exact untouched_preserved. Qed.
+Print Assumptions C03_untouched_preserved.
+
+(* non-vacuity: a file with a continuation line, two transactions (several operations
+   on one line, a deletion), a save; the hypotheses hold, the run succeeds, three
+   actions are logged and the file is rewritten *)
+Definition ex_file : str := [47;102]%N.                                           (* "/f" *)
+Definition ex_content : str := [65;61;32;98;32;92;10; 9;99;10; 88;61;49;10]%N.    (* "A= b \\\n\tc\nX=1\n" *)
+Definition ex_groups : list (list str * str) :=
+  [ ([[65;61;32;98;32;92;10]%N; [9;99;10]%N], [65;61;32;98;32;99]%N);            (* lines 1--2, Text "A= b c" *)
+    ([[88;61;49;10]%N], [88;61;49]%N) ].                                          (* line 3 *)
+Definition ex_events : list event :=
+  [ ETxn (Txn 0 [68;105;97;103;46]%N [OReplaceAfter [] [98]%N [66]%N; OInsertBelow [110;101;119]%N]);
+    ETxn (Txn 1 [68;105;97;103;46]%N [ODelete]);
+    ESave ].
+Example C03_witness :
+  wf_groups ex_content ex_groups /\
+  exists st, run (Opts true false []) [] ex_events (init_state ex_file ex_groups) = Ok st /\
+    map (fun g => (g_lineno g, g_descr g)) (s_log st) =
+      [(1, DRepl [98]%N [66]%N); (2, DBelow [110;101;119]%N); (3, DDelete)] /\
+    disk_after ex_file ex_content None (s_ops st) =
+      [65;61;32;66;32;92;10; 9;99;10; 110;101;119;10]%N.                          (* "A= B \\\n\tc\nnew\n" *)
+Proof.
+  split.
+  - split; [vm_compute; reflexivity|]. repeat constructor; discriminate.
+  - eexists. split; [vm_compute; reflexivity|]. split; vm_compute; reflexivity.
+Qed.
